@@ -69,6 +69,28 @@ def chk_scalar(k):
             if st != "ok" or bytes(back) != kb or back.K.sec() != secp.sec(pt):
                 viols.append(V("%s:from_wif:%s:roundtrip" % (P, flavour), "from_wif(%s) for scalar %x -> %s" % (
                     w, k, back if st != "ok" else bytes(back).hex())))
+                continue
+            # a key IMPORTED from one flavour exports every flavour correctly (the import form must leave no trace), twice
+            for rep in (0, 1):
+                for c2 in (True, False):
+                    for t2 in (False, True):
+                        st2, w2 = attempt(back.wif, compressed=c2, testnet=t2)
+                        if st2 != "ok" or w2 != hd.wif(k, c2, t2):
+                            viols.append(V("%s:wif:imported-%s:export-%s" % (P, flavour, ("c" if c2 else "u") + ("t" if t2 else "m")),
+                                           "key imported from %s, wif(compressed=%r, testnet=%r)" % (w, c2, t2), w2, hd.wif(k, c2, t2)))
+            for c2 in (True, False):
+                if back.K.sec(compressed=c2) != secp.sec(pt, c2):
+                    viols.append(V("%s:sec:imported-%s:wrong-bytes" % (P, flavour), "sec(compressed=%r) of the key imported from %s" % (c2, w)))
+    # duplicates (copy.copy / copy.deepcopy / pickle round trip) of the key objects encode exactly like the originals
+    from .. import hdscen
+    for label, obj in (("PrivateKey", o), ("PublicKey", o.K)):
+        for how, c in hdscen.clones(obj):
+            pub = c.K if label == "PrivateKey" else c
+            st, got = attempt(lambda: [pub.sec(True), pub.sec(False), pub.sec()] + ([c.wif(True, False), c.wif(False, True), bytes(c)] if label == "PrivateKey" else []))
+            exp = [secp.sec(pt, True), secp.sec(pt, False), secp.sec(pt, True)] + ([hd.wif(k, True, False), hd.wif(k, False, True), kb] if label == "PrivateKey" else [])
+            if st != "ok" or got != exp:
+                viols.append(V("%s:clone:%s:%s:differs" % (P, label, how), "%s of the %s of scalar %x encodes differently" % (how, label, k),
+                               str([x.hex() if isinstance(x, bytes) else x for x in got] if st == "ok" else got)[:200]))
     return ("violation" if viols else "scalar-ok"), viols
 
 
